@@ -12,7 +12,7 @@ ROOT = os.path.dirname(os.path.dirname(os.path.dirname(os.path.abspath(__file__)
 EVIDENCE_DIR = os.path.join(ROOT, "evidence")
 REPLAY_DIR = os.path.join(ROOT, "replays")
 KNOWN_FILE = os.path.join(ROOT, "known-findings.txt")
-NPROC = max(1, min(16, (os.cpu_count() or 2)))
+NPROC = max(1, min(16, int(os.environ.get("VERIF_NPROC") or 0) or (os.cpu_count() or 2)))
 
 
 def load_known(prop):
